@@ -41,6 +41,7 @@ def step (line : String) : String :=
   | id :: _cls :: "rtv1" :: args => s!"{id} {evalRtV1 args}"
   | id :: _cls :: "rtrakp1" :: args => s!"{id} {evalRtRakp1 args}"
   | id :: _cls :: "send" :: args => s!"{id} {evalSend args}"
+  | id :: _cls :: "sendhist" :: args => s!"{id} {evalSendHist args}"
   | id :: _cls :: "slsend" :: args => s!"{id} {evalSlSend args}"
   | id :: _cls :: "slhist" :: args => s!"{id} {evalSlHist args}"
   | id :: _cls :: "hs" :: args => s!"{id} {evalHs args}"
